@@ -31,15 +31,21 @@ def ensure_venv():
 
 def run_jobs(jobs: list[dict], workdir: str, log=print) -> list[dict]:
     """Run jobs on NCPU worker processes; each job has wall cap job['wall_cap']."""
-    pending = sorted(enumerate(jobs), key=lambda ij: -ij[1].get("weight", 1))
+    pending = sorted(enumerate(jobs), key=lambda ij: (0 if ij[1].get("core", True) else 1, -ij[1].get("weight", 1)))
     running = []  # (idx, job, Popen, start, resfile)
     results: dict[int, dict] = {}
     env = dict(os.environ)
     env["PYTHONPATH"] = HERE + ((os.pathsep + os.environ["VERIF_REPO"]) if os.environ.get("VERIF_REPO") else "")
     env.setdefault("PYTHONHASHSEED", "0")
+    t_start = time.time()
+    budget = float(os.environ.get("VERIF_THOROUGH_BUDGET_S", "2700"))
     while pending or running:
         while pending and len(running) < NCPU:
             idx, job = pending.pop(0)
+            if not job.get("core", True) and time.time() - t_start > budget:
+                # thorough tier: deep (non-core) jobs are not started once the wall budget is used up; they are reported as inconclusive
+                results[idx] = _dead(job, "UNKNOWN", f"not started: thorough wall budget of {budget:.0f} s used up")
+                continue
             jf = os.path.join(workdir, f"job{idx}.json")
             rf = os.path.join(workdir, f"res{idx}.json")
             with open(jf, "w") as f:
@@ -132,8 +138,8 @@ def run_check(prop: str, tier: str, seed: int) -> int:
         extra = mod.thorough_extra(seed)
         for j in extra:
             j.setdefault("core", False)
-            j.setdefault("cpu_cap", 3000)
-            j.setdefault("wall_cap", 4000)
+            j["cpu_cap"] = min(j.get("cpu_cap", 1800), 1800)
+            j["wall_cap"] = min(j.get("wall_cap", 2400), 2400)
         jobs = jobs + extra
     else:
         jobs = mod.jobs(tier, seed)
